@@ -1,5 +1,5 @@
 """Property -> rules.  Each entry: run(prog, tier) -> (obligations, floors, meta)."""
-from .rules import bounds, arith, index, numctor, cmp, jsonw, memo, strict, lookup, tls, imports, hashord, capi, tables, ops, registry, printf, recur, trace, fmtcover, fmttables
+from .rules import bounds, arith, index, numctor, cmp, jsonw, memo, strict, lookup, tls, imports, hashord, capi, tables, ops, registry, printf, recur, trace, fmtcover, fmttables, units, fmttokens
 
 COMMON_TRUST = [
     "rustc nightly HIR/MIR construction, trait resolution and const evaluation",
@@ -379,7 +379,7 @@ def c18(prog, tier):
 
 
 def c19(prog, tier):
-    obs, floors, an = merge(fmtcover.run(prog), only(tables.run(prog, which=("rowan",)), ("rowan:",)))
+    obs, floors, an = merge(fmtcover.run(prog), fmttokens.run(prog), only(tables.run(prog, which=("rowan",)), ("rowan:",)))
     meta = {
         "level": "other",
         "explanation": (
@@ -387,15 +387,17 @@ def c19(prog, tier):
             "output': every child accessor of every syntax node kind of the generated tree (79) and the semantic token accessors (tailstrict, "
             "field `+`, `?` of null-coalescing index) are read by the formatter, list children are walked with children_between::<T>; every "
             "children_between site keeps the children's before/inline trivia and the ending comments and hands them to format_comments; "
-            "format() returns Err before printing when the parser reported errors; the syntax-tree parser's operator tables equal the grammar "
+            "format() returns Err before printing when the parser reported errors; R-FMTTOK: every token that jsonnet.ungram makes mandatory in a "
+            "node (45 tokens of 27 nodes) is written on every path through that node's print code, as a literal, through a child printer that owes "
+            "it, or by printing the node's own text; the syntax-tree parser's operator tables equal the grammar "
             "(otherwise the printed tree is not the evaluator's tree). NOT decided: AST equality of output and input (semantic), layout logic."),
         "rule": "R-FMTCOVER: MIR call enumeration of generated accessors from the formatter crate; HIR destructuring of children_between results; MIR dominance for refusal; R-TABLE for the rowan precedence tables",
-        "rules": ["R-FMTCOVER", "R-TABLE"],
+        "rules": ["R-FMTCOVER", "R-FMTTOK", "R-TABLE"],
         "analysed": an,
-        "decided": "child / semantic-token / trivia coverage of the printer; refusal on syntax errors",
+        "decided": "child / semantic-token / trivia coverage of the printer; mandatory grammar tokens written on every path; refusal on syntax errors",
         "not_decided": "that the printed text parses to the same AST; comment placement",
         "trusted_base": COMMON_TRUST + ["generated nodes.rs accessors reflect jsonnet.ungram"],
-        "assumptions": ["punctuation and keyword tokens are re-emitted as literals by the printer (not checked token by token)"],
+        "assumptions": ["optional punctuation (trailing commas, second and third `:` of a slice) is layout and not checked"],
     }
     return obs, floors, meta
 
@@ -426,6 +428,35 @@ def c14(prog, tier):
                        "PythonVars and XML names are written raw by design (inventoried as info)",
         "trusted_base": COMMON_TRUST + ["TOML 1.0 / YAML 1.1+1.2 / XML 1.0 character tables transcribed in rules/fmttables.py"],
         "assumptions": ["escape_string_json_buf implements its ESCAPE table (decided under C05's R-JSON)"],
+    }
+    return obs, floors, meta
+
+
+def c17(prog, tier):
+    obs, floors, an = merge(units.run(prog), units.run_prov(prog), units.run_trivia(prog))
+    meta = {
+        "level": "other",
+        "explanation": (
+            "Static decision of structural conditions necessary for C17; tiling of the generated (logos) lexer, losslessness of the tree for "
+            "every input and `a span covers its construct` quantify over parser runs and are NOT decided. R-UNIT: in the position pipeline "
+            "(location.rs, source.rs, trace/mod.rs, the lexers, the event sink, StdTracePrinter, the parser's span helpers) every integer is "
+            "given a unit -- byte offset (str::len, char_indices, find, len_utf8, Span.1/.2, CodeLocation.offset/line_*_offset, "
+            "ParseError.location.offset, the offsets parameter of offset_to_location / map_source_locations), character index "
+            "(chars().enumerate(), chars().count()) or line/column -- by a flow-insensitive inference over MIR locals; a comparison, "
+            "addition, chain(), store into a declared field or argument passing that joins two different units is a violation. R-PROV: "
+            "every map_source_locations call maps Span.1 (start) first and Span.2 of the same span second; print_code_location prints "
+            "start.line first, end.column last and, on the start.line != end.line edge, start.line:start.column-end.line:end.column; its "
+            "callers pass locations[0] and locations[1] of one mapping; the parser's error position is span_start(), which is the current "
+            "lexeme's start or, at end of input, the last lexeme's end; span_end is the previous lexeme's end. R-TRIVIA: the token filter "
+            "in front of the syntax-tree parser and the tree builder's skip_whitespace accept the same kind set; a tree token's text is "
+            "lexemes[offset].text with offset advancing by one; nothing else adds tokens to the green tree."),
+        "rule": "R-UNIT: unit inference over MIR locals seeded from std APIs and declared fields; R-PROV: MIR operand provenance; R-TRIVIA: sibling predicate classes from HIR patterns + resolved callees",
+        "rules": ["R-UNIT", "R-PROV", "R-TRIVIA"],
+        "analysed": an,
+        "decided": "no byte/char/column unit confusion; start-before-end provenance of every printed position; parser EOF position; trivia class agreement; token text provenance",
+        "not_decided": "lexer tiling (generated automaton), byte-for-byte tree text for every input, span covers the construct, CRLF handling of columns",
+        "trusted_base": COMMON_TRUST + ["logos-generated lexer", "rowan GreenNodeBuilder"],
+        "assumptions": ["column numbers are counted in characters (the property's ASCII-prefix precondition makes bytes and characters coincide on the line)"],
     }
     return obs, floors, meta
 
@@ -542,6 +573,7 @@ PROPS = {
     "C13": {"run": c13, "thorough_cfgs": ["default", "experimental"]},
     "C18": {"run": c18, "thorough_cfgs": ["default", "experimental", "capi-nodefault"]},
     "C19": {"run": c19, "thorough_cfgs": ["default"]},
+    "C17": {"run": c17, "thorough_cfgs": ["default", "experimental"]},
     "C14": {"run": c14, "thorough_cfgs": ["default", "experimental"]},
     "C15": {"run": c15, "thorough_cfgs": ["default", "capi-nodefault"]},
     "C16": {"run": c16, "thorough_cfgs": ["default", "experimental"]},
